@@ -34,12 +34,36 @@ fn module_text(c: &Case) -> String {
          Zz-Nn ::= INTEGER {{ {l}(1) }}\n\
          Zt-{u} ::= [APPLICATION 3] INTEGER (0..7)\n\
          Zs-{u} ::= [5] IA5String\n\
+         {kinds}\
          {l} INTEGER ::= 5\n\
          END\n",
         u = c.upper,
-        l = c.lower
+        l = c.lower,
+        kinds = KINDS.iter().enumerate().map(|(i, k)| format!("Zk{i}-{} ::= {k}\n", c.upper)).collect::<String>()
     )
 }
+
+/// one type assignment per kind of type: each kind has a generator function of its own, and
+/// each of them writes the identifier annotation itself
+const KINDS: [&str; 17] = [
+    "BOOLEAN",
+    "NULL",
+    "BIT STRING",
+    "BIT STRING { zz-bit(0) }",
+    "OCTET STRING",
+    "UTF8String",
+    "OBJECT IDENTIFIER",
+    "ANY",
+    "EXTERNAL",
+    "EMBEDDED PDV",
+    "GeneralizedTime",
+    "UTCTime",
+    "SEQUENCE OF INTEGER",
+    "SET OF BOOLEAN",
+    "SET { zz-member INTEGER }",
+    "Zz-En",
+    "TYPE-IDENTIFIER.&Type",
+];
 
 fn legal(ident: &str) -> bool {
     syn::parse_str::<syn::Ident>(ident).is_ok()
@@ -173,6 +197,19 @@ fn judge(c: &Case, mods: &[RModule]) -> Option<(&'static str, String)> {
             return Some(("structure", format!("{rust} carries no tag")));
         }
         if let Some(f) = check_one(Role::Type, &t.name, &asn1, Some(&t.attrs)) {
+            return Some(f);
+        }
+    }
+    // one type assignment per kind of type
+    for (i, k) in KINDS.iter().enumerate() {
+        let asn1 = format!("Zk{i}-{}", c.upper);
+        let rust = crate::structure::title_case(&asn1);
+        let attrs = match (m.find_struct(&rust), m.find_enum(&rust)) {
+            (Some(t), _) => &t.attrs,
+            (None, Some(e)) => &e.attrs,
+            _ => return Some(("structure", format!("the type {asn1} ::= {k} was not generated as {rust}"))),
+        };
+        if let Some(f) = check_one(Role::Type, &rust, &asn1, Some(attrs)) {
             return Some(f);
         }
     }
